@@ -4,13 +4,16 @@
 Import-free executable model.  Part 1: services and their call futures (and_then.rs, map.rs,
 map_err.rs, apply.rs, boxed.rs, fn_service.rs, the wrapper impls of lib.rs, macros.rs).
 Part 2: service factories and their init futures (the factory halves of the same files plus
-transform.rs, apply_cfg.rs, map_config.rs, map_init_err.rs).
+transform.rs, transform_err.rs, apply_cfg.rs, map_config.rs, map_init_err.rs).
 
 Leaves are *scripted*: a leaf's call future answers `Pending` `cp` times and then `Ok`/`Err`; its
 `poll_ready` answers `Pending` `rp` times and then `Ready(Ok)`/`Ready(Err)` for ever.  The readiness
 countdown lives in the tree itself (`pollReady` returns the new tree), the completion countdown in
 the future (`Fut.leafF`).  Every observable action is logged as an `Evt`; `w` is the identity of the
-waker of the current top-level poll (the harness uses a fresh one for every poll).
+waker of the current top-level poll (the harness uses a fresh one for every poll).  A leaf that
+answers `Pending` to waker `w` (events `polled _ w none`, `ipolled _ w none`, `rdy _ w pending`) has
+parked that waker: this is the only way a wake-up is arranged, the combinators never wake by
+themselves.
 -/
 namespace ActixNet.Service
 
